@@ -21,4 +21,18 @@ PROPS = {
             "named-type identifier at the leaf is compared as emitted (normalization = none)",
         ],
     ),
+    "C11": dict(
+        coq_props=["Properties/C11.v"],
+        run_modules=["RunC11.v"],
+        harness_cmd="c11",
+        trusted_base=COMMON_TB + [
+            "Naming.v is a hand model of shared.rs keyword_replace (incl. std's binary_search loop) and of the identifier/rename computation at the six name positions; Heck.v is an ASCII model of heck 0.5; both tied by RunC11.corr / RunC11.heck on every run",
+            "serde's meaning of #[serde(rename)] (wire key = rename or identifier) and rustc's identifier rules (ASCII, reference keyword list written out in Naming.v)",
+            "token-level observation: compilation of the emitted items is not run by this check (necessary conditions only: identifier-shaped, not a keyword)",
+        ],
+        assumptions=[
+            "GraphQL names are ASCII [_A-Za-z][_0-9A-Za-z]* and do not start with __",
+            "two names of one scope that become equal after case conversion are outside the supported subset (K3)",
+        ],
+    ),
 }
